@@ -676,13 +676,14 @@ def run(ctx):
         "binary64 model vs real-number theorems: same Gallina terms at two Ops instances; rounding is not modelled",
     ]
     ctx.partial += [
-        "spline/pchip/akima/hermite: consistency of the triple rests on the scipy contract; supported by 4th-order "
+        "spline/pchip/akima/hermite: consistency of the triple rests on the scipy contract (pointwise: nu=1/nu=2 "
+        "evaluations are the derivatives of the nu=0 evaluation at the grid point - triple_consistent_library; shown "
+        "satisfiable for each method's oracle shape by a polynomial library); supported by 4th-order "
         "finite differences of the implementation's own omega and gamma outputs on a refined grid (tolerance 2e-6), "
         "and power-law exactness of these four methods is measured (tolerance 1e-5/1e-5/1e-3), not proved",
-        "the interpolation property of the Newton form for arbitrary data (p(x_i) = y_i) is validated by the tie "
-        "against scipy lagrange/Krogh, proved only for data that are linear in ln V (power_law_exact)",
         "that the executable elimination returns a solution of the normal equations is checked numerically "
-        "(comparison with numpy.linalg.lstsq), not proved",
+        "(comparison with numpy.linalg.lstsq), not proved; normal_eqs_solution_unique_fit proves that the normal "
+        "equations determine the coefficient list uniquely (more than `order` distinct abscissae)",
     ]
     ctx.assumptions += [
         "volumes positive and pairwise distinct; frequencies of non-skipped modes positive",
@@ -695,7 +696,7 @@ def run(ctx):
 
     # 0. theorems
     shutil.copy(PROPS / "Prop_C11.v", rd / "Prop_C11.v")
-    ok, pout = ctx.prove(rd / "Prop_C11.v", "Prop_C11.v (10 theorems over R about PolyModel/InterpModel)", "theorem-file")
+    ok, pout = ctx.prove(rd / "Prop_C11.v", "Prop_C11.v (25 theorems over R about PolyModel/InterpModel)", "theorem-file")
     # vlib.parse_assumptions misses axioms whose type is printed on the following line; collect them here
     import re
     ctx.axioms = {}
@@ -705,7 +706,13 @@ def run(ctx):
             ctx.axioms[mm.group(1)] = ctx.axioms.get(mm.group(1), 0) + 1
     ctx.extra["theorems"] = ["polyder_is_derive", "triple_consistent_poly", "power_law_exact", "interpolant_unique",
                              "lsq_poly_exact_upto_order", "lsq_power_law_exact", "loop_indexing", "plot_select_spec_iff",
-                             "plot_select_refuted", "triple_consistent_oracle"]
+                             "plot_select_refuted", "triple_consistent_oracle",
+                             "newton_form_interpolates", "node_poly_interpolates", "node_poly_exact_on_polynomials",
+                             "subsample_at_least_two", "subsample_at_most_order", "subsample_count", "subsample_order_one",
+                             "power_law_exact_admissible", "normal_eqs_solution_unique_fit", "lsq_result_determined",
+                             "triple_consistent_library", "spline_contract_on_polynomial_oracle",
+                             "library_shape_exact_on_polynomial_oracle", "c1_piecewise_oracle_pointwise_contract",
+                             "c1_piecewise_oracle_not_global_contract"]
 
     # 1. plot selection (D6)
     run_plot(ctx, rd, mg)
